@@ -86,6 +86,9 @@ func funcLitToLambdaExpr(v *ast.FuncLit, ret *ast.Expr) {
 	}
 	var lsh []*ast.Ident
 	for _, p := range v.Type.Params.List {
+		if _, ok := p.Type.(*ast.Ellipsis); ok {
+			return // a lambda cannot say that its last parameter is variadic
+		}
 		if p.Names == nil {
 			lsh = append(lsh, ast.NewIdent("_"))
 		} else {
